@@ -45,6 +45,26 @@ let run (c : string) (obs : string) : string * string * string =
     end;
     if temps <> "0" then add "kind=temporary-file-left-behind";
     (model, verdict (), (if ok then "wf-ok" else if fail <> "-" then "wf-writer-fails" else "wf-commit-fails") ^ (if total > 65536 then "+multi-chunk" else ""))
+  | ["wfx"; old; m; lim; sz] ->
+    (* a file-size limit on the child and a writer that ignores the errors of its Write calls *)
+    let sizes = ints sz in
+    let total = List.fold_left (+) 0 sizes in
+    let (calls, err) = m_write_file_limited (List.map z_of_int sizes) (z_of_int (int_of_string lim)) in
+    let ok = not err in
+    let newmode = Printf.sprintf "%o" ((int_of_string ("0o" ^ m)) land (lnot umask)) in
+    let model = Printf.sprintf "ret=%s dest=%s mode=%s temps=0 trace=%s" (if err then "1" else "0")
+      (if ok then Printf.sprintf "new:%d" total else old_dest old) (if ok then newmode else old_mode old) (show_calls calls) in
+    if (total > int_of_string lim) <> err then add "kind=model-error-flag";
+    if total <= int_of_string lim then begin
+      if ret <> "0" then add "kind=error-on-success-path";
+      if dest <> Printf.sprintf "new:%d" total then add "kind=destination-is-not-the-bytes-written";
+      if mode <> newmode then add "kind=wrong-mode"
+    end else begin
+      if ret <> "1" then add "kind=write-fault-not-reported";
+      if dest <> old_dest old || (old = "1" && mode <> "640") then add "kind=destination-touched-on-failure"
+    end;
+    if temps <> "0" then add "kind=temporary-file-left-behind";
+    (model, verdict (), if ok then "wfx-fits" else "wfx-write-fault")
   | ["file"; old; m; ops] ->
     let rename_ok = old <> "dir" in
     let fops = List.map (fun o -> if o = "commit" then FCommit else if o = "close" then FClose else FWrite (z_of_int (int_of_string (String.sub o 1 (String.length o - 1))))) (String.split_on_char ',' ops) in
